@@ -117,13 +117,35 @@ func (w *World) APICall(in *Inst, fn int, x int32) (int32, *Fail) {
 	return r, f
 }
 
-// APICallRec models calling the exported rec function directly.
+// RecLimit separates "small" recursion depths (the call returns its argument)
+// from exhausting ones.  Generated depths are <= 15 or >= 2^30.
+const RecLimit = 1000
+
+// APICallRec models calling the exported rec function directly (rec functions
+// never carry listeners).
 func (w *World) APICallRec(in *Inst, r int, x int32) (int32, *Fail) {
-	name := fmt.Sprintf("%s.rec%d", in.P.Name, r)
+	if x > RecLimit {
+		return 0, &Fail{Kind: "stack-overflow", Msg: "wasm error: stack overflow"}
+	}
+	if x < 0 {
+		x = 0
+	}
+	var f *Fail
+	if in.Closed {
+		f = &Fail{Kind: "exit", ExitCode: in.ExitCode}
+	}
+	return x, f
+}
+
+// gleaf models the leaf function behind the funcref global.
+func (w *World) gleaf(in *Inst, x int32) int32 {
+	name := in.P.Name + ".gleaf"
 	w.chain = append(w.chain, name)
-	w.emit(Event{Kind: "before", Func: name, Vals: []uint32{uint32(x)}, Chain: []string{name}})
+	w.emit(Event{Kind: "before", Func: name, Vals: []uint32{uint32(x)}, Chain: w.curChain()})
+	in.Globals[3]++
 	w.chain = w.chain[:len(w.chain)-1]
-	return 0, &Fail{Kind: "stack-overflow", Msg: "wasm error: stack overflow"}
+	w.emit(Event{Kind: "after", Func: name, Vals: []uint32{uint32(x + 1)}})
+	return x + 1
 }
 
 func (w *World) call(in *Inst, fn int, x int32) (res int32, fail *Fail) {
@@ -179,6 +201,9 @@ func (w *World) call(in *Inst, fn int, x int32) (res int32, fail *Fail) {
 				return 0, trap(TrapNullCall)
 			case t == -2:
 				return 0, trap(TrapSigMismatch)
+			case t == -3:
+				acc = w.gleaf(in, acc)
+				continue
 			}
 			r, f := w.call(in, t, acc)
 			if f != nil {
@@ -197,7 +222,7 @@ func (w *World) call(in *Inst, fn int, x int32) (res int32, fail *Fail) {
 			w.emit(Event{Kind: "after", Func: "env.h", Vals: []uint32{uint32(r)}})
 			acc = r
 		case ATrap:
-			if a.A == TrapDivZero || a.A == TrapOOBLoad || a.A == TrapOOBStore || a.A == TrapUnreachable || a.A == TrapTruncOverflow {
+			if a.A == TrapDivZero || a.A == TrapOOBLoad || a.A == TrapOOBStore || a.A == TrapUnreachable || a.A == TrapTruncOverflow || a.A == TrapAtomicOOB8 || a.A == TrapAtomicCmpxchgOOB8 {
 				return 0, trap(int(a.A))
 			}
 			if a.A == TrapNullCall {
@@ -217,11 +242,19 @@ func (w *World) call(in *Inst, fn int, x int32) (res int32, fail *Fail) {
 				in.Pages += int(a.A)
 			}
 		case ARec:
-			name := fmt.Sprintf("%s.rec%d", in.P.Name, a.A)
-			w.chain = append(w.chain, name)
-			w.emit(Event{Kind: "before", Func: name, Vals: []uint32{uint32(acc)}, Chain: w.curChain()})
-			w.chain = w.chain[:len(w.chain)-1]
-			return 0, &Fail{Kind: "stack-overflow", Msg: "wasm error: stack overflow"}
+			var n int32
+			switch a.B {
+			case 0:
+				n = 1 << 30
+			case 1:
+				n = acc & 15
+			default:
+				n = (acc&1)<<30 | (acc & 7)
+			}
+			if n > RecLimit {
+				return 0, &Fail{Kind: "stack-overflow", Msg: "wasm error: stack overflow"}
+			}
+			acc = n
 		case ATableSet:
 			in.Table[a.A] = int(a.B)
 		case AExit:
@@ -246,6 +279,13 @@ func (w *World) call(in *Inst, fn int, x int32) (res int32, fail *Fail) {
 			in.ElemDropped = true
 		case AStdout, AOpen, AClose:
 			panic("plan model: WASI atoms are not modelled")
+		case ACallGRef:
+			in.Table[SlotGRef] = -3
+			acc = w.gleaf(in, acc)
+		case AAtomicAdd:
+			old := in.Cells[a.A]
+			in.Cells[a.A] = old + a.B
+			acc += old
 		}
 	}
 	return acc + int32(fn) + 1, nil
